@@ -55,6 +55,8 @@ pub struct ReadState {
     /// which structural faults of the plan were applied to a record that was actually opened
     pub applied: Vec<bool>,
     pub trace: Option<Vec<(RStep, u8)>>,
+    /// the code under test kept calling although every step failed: it does not terminate
+    pub runaway: bool,
 }
 
 pub struct ReadEnv<'de> {
@@ -143,6 +145,11 @@ impl<'de> ReadEnv<'de> {
             t.push((what, depth));
         }
         if k >= STEP_CAP {
+            if k >= STEP_CAP * 8 {
+                st.runaway = true;
+                drop(st);
+                panic!("read side does not terminate");
+            }
             return Err(SimError::Medium("read step cap exceeded"));
         }
         let top_done = st.top_done;
@@ -349,7 +356,7 @@ impl<'de> De<'de> {
                 } else {
                     (order.len(), false)
                 };
-                let acc = RecAccess { de: self, entries, order, pos: 0, limit, overrun, pending: None };
+                let acc = RecAccess { de: self, entries, order, pos: 0, limit, overrun, pending: None, declared_fields };
                 v.visit_map(acc)
             }
         }
@@ -424,6 +431,8 @@ fn deliver_str<'de, V: Visitor<'de>>(form: KeyForm, s: &'de str, v: V) -> Result
             v.visit_bytes(&tmp)
         }
         KeyForm::BorrowedBytes => v.visit_borrowed_bytes(s.as_bytes()),
+        // only record keys are ever delivered as indices (KeyDe); text values stay text
+        KeyForm::Index => v.visit_borrowed_str(s),
     }
 }
 
@@ -462,6 +471,12 @@ impl<'de> de::Deserializer<'de> for De<'de> {
     }
 
     fn deserialize_option<V: Visitor<'de>>(self, v: V) -> Result<V::Value, SimError> {
+        if self.env.cfg.check_names && !matches!(self.node, Node::None | Node::Unit | Node::Some(_)) {
+            // strict (non-self-describing) medium: an option has a tag on the wire; a plain value
+            // that was not written through serialize_some cannot be read as one
+            self.env.step(RStep::Misc, self.depth)?;
+            return Err(SimError::Medium("the reader expects an option, the medium holds a plain value"));
+        }
         match self.node {
             Node::None | Node::Unit => {
                 self.env.step(RStep::Leaf, self.depth)?;
@@ -559,6 +574,7 @@ struct RecAccess<'de> {
     limit: usize,
     overrun: bool,
     pending: Option<Deliver>,
+    declared_fields: Option<&'static [&'static str]>,
 }
 
 impl<'de> de::MapAccess<'de> for RecAccess<'de> {
@@ -584,7 +600,11 @@ impl<'de> de::MapAccess<'de> for RecAccess<'de> {
             },
         };
         env.st.borrow_mut().log.str(key);
-        seed.deserialize(KeyDe { env, key, depth: self.de.depth }).map(Some)
+        let index = match (env.cfg.key_form, self.declared_fields) {
+            (KeyForm::Index, Some(f)) => Some(f.iter().position(|x| *x == key).unwrap_or(f.len()) as u64),
+            _ => None,
+        };
+        seed.deserialize(KeyDe { env, key, depth: self.de.depth, index }).map(Some)
     }
 
     fn next_value_seed<T: DeserializeSeed<'de>>(&mut self, seed: T) -> Result<T::Value, SimError> {
@@ -735,6 +755,8 @@ struct KeyDe<'de> {
     env: &'de ReadEnv<'de>,
     key: &'de str,
     depth: u8,
+    /// Some(i): deliver the key as field index i
+    index: Option<u64>,
 }
 
 macro_rules! key_forward {
@@ -746,6 +768,9 @@ macro_rules! key_forward {
 impl<'de> KeyDe<'de> {
     fn deliver<V: Visitor<'de>>(self, v: V) -> Result<V::Value, SimError> {
         self.env.step(RStep::Key, self.depth)?;
+        if let Some(i) = self.index {
+            return v.visit_u64(i);
+        }
         deliver_str(self.env.cfg.key_form, self.key, v)
     }
 }
